@@ -60,10 +60,10 @@ func runSpice(tier string, seed int64, summaryPath, outPath string) {
 	rng := rand.New(rand.NewSource(seed))
 
 	max := ^uint64(0)
-	full := []uint64{0, 1, 2, e18/2, e18 - 2, e18 - 1, e18, e18 + 1, e18 + 2, 1<<63 - 1, 1 << 63, 1<<63 + 1,
+	full := []uint64{0, 1, 2, e18 / 2, e18 - 2, e18 - 1, e18, e18 + 1, e18 + 2, 1<<63 - 1, 1 << 63, 1<<63 + 1,
 		max - e18 - 1 + 1, max - e18 + 1, max - e18 + 2, max - 1, max}
 	curSmall := []uint64{0, 1, 2, 1 << 63, max - 1, max}
-	supSmall := []uint64{0, 1, e18/2, e18 - 1, e18, e18 + 1, max - e18 + 1, max - 1, max}
+	supSmall := []uint64{0, 1, e18 / 2, e18 - 1, e18, e18 + 1, max - e18 + 1, max - 1, max}
 	curMid := []uint64{0, 1, 2, e18, 1 << 63, max - 1, max}
 
 	violation := func(kind string, detail map[string]any) {
